@@ -382,6 +382,10 @@ func (sc *ServerConfig) Initialize(tlsCertStore *tlscerts.Store, listenConfigCac
 		if !sc.TunnelRemoteAddress.IsValid() {
 			return errors.New("tunnelRemoteAddress is required for simple tunnel")
 		}
+		if sc.TunnelUDPTargetOnly && !sc.TunnelRemoteAddress.IsIP() {
+			// The source address of each return packet is compared against the IP address.
+			return errors.New("tunnelUDPTargetOnly requires tunnelRemoteAddress to be an IP address")
+		}
 
 	case "http":
 		if err := sc.HTTP.Validate(); err != nil {
